@@ -338,7 +338,11 @@ static void *verif_realloc(void *p, size_t n) {
   m = nondet_size(); __CPROVER_assume(m >= n);
   q = (malloc)(m);
   if (q == NULL) return NULL;
+#ifdef CHILDREN_GROW
+  { size_t e; for (e = 0; (e + 1) * sizeof(char *) <= old && (e + 1) * sizeof(char *) <= n; e++) q[e] = ((char **)p)[e]; }   /* small lists: every slot copied */
+#else
   if ((g_k_slot + 1) * sizeof(char *) <= old && (g_k_slot + 1) * sizeof(char *) <= n) q[g_k_slot] = ((char **)p)[g_k_slot];
+#endif
   free(p);
   g_realloc_moves++; g_list_obj = q; g_list_cap = n;
   return q;
@@ -382,7 +386,7 @@ void h_ldb_open(void) {
 
 /* ---------------------------------------------------------------- ldb_read */
 #define GHOST_READ g_jaddr, g_jhits, g_jclob, g_errno, g_rd_errno, g_pos, g_rfail, g_read_eintr, g_read_calls
-#define READ_PRE(fd, dst, len) ((fd) == g_rfd && g_rst == 1 && ((len) == 0 || __CPROVER_w_ok(dst, len)) && (len) <= FSIZE_MAX && g_fsize <= FSIZE_MAX && g_pos <= FSIZE_MAX)
+#define READ_PRE(fd, dst, len) ((fd) == g_rfd && g_rst == 1 && ((len) == 0 || __CPROVER_w_ok(dst, len)) && (len) <= FSIZE_MAX && g_fsize <= FSIZE_MAX && g_pos <= (unsigned long)INT64_MAX)
 /* sequential read: the result is exactly the number of bytes between the position and the end of the file,
    capped by len (short reads and EINTR are absorbed); -1 iff a read(2) failed */
 int64_t c_ldb_read(int fd, void *dst, size_t len)
@@ -490,6 +494,7 @@ void h_rfile_skip(void) {
 
 /* ------------------------------------------- ldb_rfile_pread, descriptor variant */
 #define GHOST_CLOSE_R g_rst, g_rcloses, g_close_fail
+#ifdef HAVE_PREAD
 /* random read of a file that is NOT mapped.  The file object either owns the descriptor, or (descriptor budget
    exhausted at creation) it holds the NAME and opens a temporary descriptor for this one read, which is closed
    exactly once on every path.  Result: as ldb_rfile_read, relative to `offset`; a failed pread gives an EMPTY
@@ -525,6 +530,44 @@ void h_rfile_pread_fd(void) {
   ldb_rfile_pread(file, &result, buf, in_count, in_offset);
   CANARY();
 }
+
+#else /* !HAVE_PREAD */
+/* ------------------------------ ldb_rfile_pread without pread(2): lseek + read under the file's mutex */
+int g_mu_held; unsigned g_mu_locks, g_mu_unlocks; ldb_mutex_t *g_mu;
+void ldb_mutex_lock(ldb_mutex_t *m) { __CPROVER_assert(m == g_mu && !g_mu_held, "lock: the file's own mutex, not held"); g_mu_held = 1; g_mu_locks++; }
+void ldb_mutex_unlock(ldb_mutex_t *m) { __CPROVER_assert(m == g_mu && g_mu_held, "unlock: the file's own mutex, held"); g_mu_held = 0; g_mu_unlocks++; }
+#define GHOST_SEEKREAD GHOST_OPEN, g_jaddr, g_jhits, g_jclob, g_rd_errno, g_rfail, g_read_eintr, g_read_calls, g_seek_calls, g_seek_fail, GHOST_CLOSE_R, g_mu_held, g_mu_locks, g_mu_unlocks
+/* same result as the pread variant; the seek and the read happen under the mutex (two threads sharing the object
+   must not interleave them), which is released on every path */
+int c_rfile_pread_seek(ldb_rfile_t *file, ldb_slice_t *result, void *buf, size_t count, uint64_t offset)
+__CPROVER_requires(__CPROVER_rw_ok(file, sizeof(*file)) && __CPROVER_w_ok(result, sizeof(*result)) && FD_RI && (RF_IS_FD(file) || RF_IS_NAME(file)) && g_mu == &file->mutex && !g_mu_held)
+__CPROVER_requires((count == 0 || __CPROVER_w_ok(buf, count)) && count <= FSIZE_MAX && g_fsize <= FSIZE_MAX)
+__CPROVER_assigns(GHOST_SEEKREAD, __CPROVER_object_whole(buf), *result)
+__CPROVER_ensures(!g_mu_held && g_mu_locks - __CPROVER_old(g_mu_locks) == g_mu_unlocks - __CPROVER_old(g_mu_unlocks))
+__CPROVER_ensures(offset > (uint64_t)INT64_MAX ==> (__CPROVER_return_value == EINVAL && g_ropens == __CPROVER_old(g_ropens) && g_rst == __CPROVER_old(g_rst) &&
+   g_read_calls == __CPROVER_old(g_read_calls) && g_seek_calls == __CPROVER_old(g_seek_calls) && result->data == __CPROVER_old(result->data) && result->size == __CPROVER_old(result->size)))
+__CPROVER_ensures(file->fd == g_rfd ==> (g_rst == 1 && g_ropens == __CPROVER_old(g_ropens) && g_rcloses == __CPROVER_old(g_rcloses)))
+__CPROVER_ensures(file->fd == -1 ==> (g_rst != 1 && g_ropens - __CPROVER_old(g_ropens) <= 1 && g_rcloses - __CPROVER_old(g_rcloses) == g_ropens - __CPROVER_old(g_ropens)))
+__CPROVER_ensures((offset <= (uint64_t)INT64_MAX && file->fd == -1 && g_ropens == __CPROVER_old(g_ropens)) ==>
+   (__CPROVER_return_value != LDB_OK && __CPROVER_return_value == (g_open_errno == 0 ? LDB_IOERR : g_open_errno) && result->data == __CPROVER_old(result->data) && result->size == __CPROVER_old(result->size)))
+__CPROVER_ensures((offset <= (uint64_t)INT64_MAX && (file->fd == g_rfd || g_ropens != __CPROVER_old(g_ropens))) ==> (result->data == (uint8_t *)buf &&
+   g_seek_calls == __CPROVER_old(g_seek_calls) + 1 && g_mu_locks == __CPROVER_old(g_mu_locks) + 1 &&
+   (__CPROVER_return_value == LDB_OK ? (result->size == AVAIL(offset, count) && g_rfail == __CPROVER_old(g_rfail) && g_seek_fail == __CPROVER_old(g_seek_fail))
+                                     : (result->size == 0 && (g_rfail == __CPROVER_old(g_rfail) + 1 || g_seek_fail == __CPROVER_old(g_seek_fail) + 1)))))
+__CPROVER_ensures((__CPROVER_return_value == LDB_OK && g_j >= offset && g_j - offset < result->size) ==> (g_jaddr == result->data + (g_j - offset) && g_jhits == __CPROVER_old(g_jhits) + 1))
+;
+void h_rfile_pread_seek(void) {
+  ldb_rfile_t *file = alloc_rfile();
+  ldb_slice_t result;
+  IN_SIZE(in_count);
+  IN_U64(in_offset);
+  unsigned char *buf = malloc(in_count);
+  __CPROVER_assume(buf != NULL);
+  g_mu = &file->mutex;
+  ldb_rfile_pread(file, &result, buf, in_count, in_offset);
+  CANARY();
+}
+#endif /* HAVE_PREAD */
 
 /* ------------------------------------------------ ldb_rfile_pread, mapped variant */
 /* the slice points INTO the mapping and never beyond the file size; a range that does not lie inside the file
@@ -663,7 +706,7 @@ void h_randfile_create(void) {
   IN_SIZE(in_namelen);
   size_t k = nondet_size();      /* arbitrary index into the name */
   char *name = malloc(in_namelen + 1);
-  __CPROVER_assume(name != NULL && in_namelen < ((size_t)1 << 40));
+  __CPROVER_assume(name != NULL && in_namelen < ((size_t)1 << 16));   /* 16 x PATH_MAX; keeps counterexample traces printable */
   name[in_namelen] = 0;
   __CPROVER_assume(FD_RI && g_rst == 0 && g_map_st == 0 && g_fsize <= FSIZE_MAX && LIM_RI(&ldb_fd_limiter) && LIM_RI(&ldb_mmap_limiter));
   g_ropens = g_rcloses = 0; g_fstat_fail = g_mmap_fail = 0; g_once_done = g_once_done ? 1 : 0;
@@ -930,6 +973,11 @@ struct dirent *readdir(DIR *d) {
   __CPROVER_assert(g_errno == 0, "errno is cleared before readdir (the only way to tell the end of the directory from an error)");
   if (g_dpos >= g_nent) return NULL;                                  /* end of directory: errno untouched */
   if (nondet_int()) { g_errno = nondet_int(); __CPROVER_assume(g_errno != 0); g_readdir_err++; return NULL; }
+#ifdef CHILDREN_GROW
+  /* growth scenario: every entry is a regular one with the empty name (cheap), so that 9 and more names fit the budget */
+  g_dirent.d_name[0] = 0; g_nreg++; g_dpos++;
+  return &g_dirent;
+#endif
   { size_t n; for (n = 0; n < NAME_MAX_B; n++) g_dirent.d_name[n] = (char)nondet_int(); }   /* the buffer is reused: old name overwritten */
   if (g_dpos == g_k) {
     kind = g_k_kind; g_k_seen++; g_k_slot = g_nreg;
@@ -993,3 +1041,25 @@ void h_children_b(void) {
   if (rc >= 0) ldb_free_children(list, rc);
   CANARY();
 }
+
+#ifdef CHILDREN_GROW
+/* the list GROWS (initial capacity 8, then 12): up to 10 regular entries, realloc moves the list to a new object or fails */
+void h_children_grow(void) {
+  char **list = (char **)&g_dirobj;
+  int rc;
+  setup_dir();
+  g_reallocs = 0; g_realloc_moves = 0; g_k_slot = 0;
+  __CPROVER_assume(g_nent <= 10);
+  rc = ldb_get_children(g_name_a, &list);
+  CHECK(g_dir_st != 1 && g_closedir_calls == (g_dir_st == 2 ? 1u : 0u), "get_children: the directory stream is closed exactly once on every path, if it was opened");
+  if (rc < 0) {
+    CHECK(rc == -1 && list == NULL, "get_children failed: -1 and no list");
+  } else {
+    CHECK(g_dpos == g_nent && (unsigned long)rc == g_nent && g_readdir_err == 0, "get_children OK: every entry is in the list");
+    CHECK(list != NULL && __CPROVER_rw_ok(list, (size_t)rc * sizeof(char *)), "get_children OK: a list with room for that many names");
+    CHECK(g_reallocs == (rc > 8 ? 1u : 0u) && g_realloc_moves == g_reallocs, "the list grows exactly when the 9th name arrives (capacity 8 -> 12), and survives the move to a new object");
+    ldb_free_children(list, rc);
+  }
+  CANARY();
+}
+#endif
